@@ -30,8 +30,8 @@ def P(theorems, quick, thorough, components, status, rule, explanation, assumpti
 PROPS = {
     'C01': P(
         ['C01_parse_total', 'C01_lexer_terminates', 'C01_renderers_total', 'C01_to_postgres_total', 'C01_to_param_postgres_total', 'C01_no_format_error'],
-        [('corpus', 0), ('enum', 1500), ('rand', 5000), ('lex', 2500), ('big', 0), ('nearmiss', 0), ('inject', 2000), ('scale-list', 0), ('scale-giant', 0), ('scale-chain', 0), ('scale-prefix', 0), ('scale-layout', 0), ('scale-names', 0), ('scale-values', 0), ('scale-digits', 0)],
-        [('corpus', 0), ('enum', 20000), ('rand', 60000), ('lex', 30000), ('big', 0), ('trees', 20000), ('inject', 30000), ('nearmiss', 0), ('scale-list', 0), ('scale-giant', 0), ('scale-chain', 0), ('scale-prefix', 0), ('scale-layout', 0), ('scale-names', 0), ('scale-values', 0), ('scale-digits', 0)],
+        [('corpus', 0), ('enum', 1500), ('rand', 5000), ('lex', 2500), ('big', 0), ('nearmiss', 0), ('inject', 2000), ('scale-list', 0), ('scale-giant', 0), ('scale-chain', 0), ('scale-prefix', 0), ('scale-layout', 0), ('scale-names', 0), ('scale-values', 0), ('scale-digits', 0), ('pairs', 0)],
+        [('corpus', 0), ('enum', 20000), ('rand', 60000), ('lex', 30000), ('big', 0), ('trees', 20000), ('inject', 30000), ('nearmiss', 0), ('scale-list', 0), ('scale-giant', 0), ('scale-chain', 0), ('scale-prefix', 0), ('scale-layout', 0), ('scale-names', 0), ('scale-values', 0), ('scale-digits', 0), ('pairs', 0)],
         PARSE + PRINT + SQL,
         'full: parser loop total within 4n+4 steps for every token list; all five renderers and both public wrappers return on every parse result; no bad formatting verb. Wall-clock cost of fmt/encoding-json is measured (observer watchdog), not proved.',
         'token sequences exhaustively to length 3 (quick) / 4 (thorough) over a 26-symbol alphabet x {no default field, d}, random structured queries with every leaf kind, random byte strings incl. invalid UTF-8/NUL, adversarial 2k/10k-token shapes; non-trivial = accepted by Parse (all renderers then run); distinct = distinct parse trees',
@@ -39,8 +39,8 @@ PROPS = {
         ['oracle record answers as Go stdlib (served by the Go helper, sampled by the run)', 'Go runtime stack exhaustion beyond ~10^5 nesting is outside the model']),
     'C02': P(
         ['C02_string_value_stays_in_its_literal', 'C02_field_name_is_one_identifier', 'C02_fragment_sql_is_one_confined_expression', 'C02_rendered_fragment_sql_is_one_confined_expression', 'C02_fragment_columns_and_constants_come_from_the_query'],
-        [('corpus', 0), ('rand', 5000), ('quote', 2500), ('inject', 2500), ('scale-list', 0), ('scale-names', 0), ('scale-values', 0), ('scale-digits', 0)],
-        [('corpus', 0), ('rand', 60000), ('quote', 30000), ('inject', 30000), ('enum', 5000), ('scale-list', 0), ('scale-names', 0), ('scale-values', 0), ('scale-digits', 0)],
+        [('corpus', 0), ('rand', 5000), ('quote', 2500), ('inject', 2500), ('scale-list', 0), ('scale-names', 0), ('scale-values', 0), ('scale-digits', 0), ('pairs', 0)],
+        [('corpus', 0), ('rand', 60000), ('quote', 30000), ('inject', 30000), ('enum', 5000), ('scale-list', 0), ('scale-names', 0), ('scale-values', 0), ('scale-digits', 0), ('pairs', 0)],
         PARSE + SQL + ['SqlToks'],
         'partial: proved at scanner level (a string value is read back by the PostgreSQL scanner model as one constant equal to the value, for all byte strings; a field name as one quoted identifier) and at grammar level for the filterable fragment (for every tree of the fragment, any depth: the token sequence of its SQL - Spec/SqlFrag.tr, compared per case with the scanner model on the implementation text - is accepted by the PostgreSQL expression grammar as one expression built from allowed constructs only; and end to end: whenever the model Render returns a text for such a tree, scanner and grammar model read it as that one expression, whose column references are field names of the query and whose string constants are string values of the query). Outside the fragment (floats, string ranges, regular expressions, parameterized text) and for column/constant provenance the clause is decided by running the PostgreSQL model (coq/Model/PgModel.v, extracted) on every SQL text the implementation returns.',
         'every SQL text ToPostgres/ToParameterizedPostgres returns on generated queries (hostile field names and values: quotes, backslashes, semicolons, comment openers, NUL, invalid UTF-8, NaN/Inf, >63-byte names); non-trivial = rendering succeeded and the text was read by the PostgreSQL model',
@@ -48,8 +48,8 @@ PROPS = {
         ['PgModel is a conservative model of scan.l/gram.y validated one-directionally against pg_query in design; not re-validated at run time']),
     'C03': P(
         ['C03_pattern_translation_preserves_meaning', 'C03_grammar_reads_the_query_structure', 'C03_sql_true_on_exactly_the_rows_of_the_query', 'C03_rendered_sql_is_true_on_exactly_the_rows_of_the_query', 'C03_fragment_renders_and_selects_exactly_the_rows_of_the_query'],
-        [('corpus', 0), ('sem', 1700), ('sem', 1700), ('sem', 1700), ('rand', 2000), ('scale-list', 0), ('scale-digits', 0), ('scale-values', 0), ('scale-names', 0)],
-        [('corpus', 0), ('sem', 20000), ('sem', 20000), ('sem', 20000), ('sem', 20000), ('rand', 20000), ('scale-list', 0), ('scale-digits', 0), ('scale-values', 0), ('scale-names', 0)],
+        [('corpus', 0), ('sem', 1700), ('sem', 1700), ('sem', 1700), ('rand', 2000), ('scale-list', 0), ('scale-digits', 0), ('scale-values', 0), ('scale-names', 0), ('pairs', 0)],
+        [('corpus', 0), ('sem', 20000), ('sem', 20000), ('sem', 20000), ('sem', 20000), ('rand', 20000), ('scale-list', 0), ('scale-digits', 0), ('scale-values', 0), ('scale-names', 0), ('pairs', 0)],
         PARSE + ['Render', 'ToPostgres', 'SqlToks'],
         'proved for the fragment with integer and string constants (Spec/SqlFrag.tr): for every tree (AND, OR, NOT, +, - over equality, comparisons, integer ranges with every inclusivity and open ends, value lists, wildcard patterns; any depth) PostgreSQL grammar reads from the SQL token sequence exactly the same Boolean combination of the same leaf predicates, and that expression is true on exactly the rows on which the query is true, for every row (numbers compare numerically - the decimal text of an integer denotes it - strings as strings, patterns by the translation theorem). And end to end on the model: whenever the model Render returns a text s for such a tree (field names of at most 63 bytes, range integers within int64, patterns not of the /.../ form), the PostgreSQL scanner and grammar models read from s exactly that expression (Proofs/SqlText: Render text = btxt; Proofs/SqlLex: pg_lex btxt = tr tokens; one lemma per token kind of scan.l that occurs). The same token sequence is also compared per case with the scanner model on the implementation text. Render succeeds on the fragment when the literal function accepts every leaf text (valid UTF-8 per the oracle, no NUL). Not proved: floats (their text comes from strconv: oracle), string ranges (K1, K2); that ToPostgres = Parse then Render is the Api model, tied by the correspondence. Those and everything else are decided by the executable semantics: the meaning of the query text (Spec/QuerySem.qsem on the model parse) against the meaning of the SQL text as the PostgreSQL model reads it (Spec/SqlSem.ssem on PgModel.pg_read), on probe rows hitting every region cut out by the query constants.',
         'fragment trees (equality, comparisons, ranges with every bound kind x inclusivity, value lists, patterns, AND/OR/NOT/+/-, parentheses, juxtaposition), each evaluated on up to 300 probe rows (all constants, +-1, all pairwise midpoints; strings: each constant, just above, just below, pattern instances and near misses); non-trivial = rendered and read back by the PostgreSQL model',
@@ -57,8 +57,8 @@ PROPS = {
         ['PostgreSQL reading of the SQL text is the PgModel one; string order is byte order on both sides']),
     'C04': P(
         ['C04_placeholders_match_parameters', 'C04_parameters_are_the_values', 'C04_parameterized_sql_selects_the_rows_of_the_query', 'C04_substituted_parameters_equivalent_to_inline', 'C04_sql_text_independent_of_values', 'C04_render_param_returns'],
-        [('corpus', 0), ('rand', 4000), ('subst', 1500), ('quote', 1000), ('sem', 2500), ('scale-list', 0), ('scale-giant', 0), ('scale-digits', 0)],
-        [('corpus', 0), ('rand', 60000), ('subst', 20000), ('quote', 20000), ('sem', 40000), ('scale-list', 0), ('scale-giant', 0), ('scale-digits', 0)],
+        [('corpus', 0), ('rand', 4000), ('subst', 1500), ('quote', 1000), ('sem', 2500), ('scale-list', 0), ('scale-giant', 0), ('scale-digits', 0), ('pairs', 0)],
+        [('corpus', 0), ('rand', 60000), ('subst', 20000), ('quote', 20000), ('sem', 40000), ('scale-list', 0), ('scale-giant', 0), ('scale-digits', 0), ('pairs', 0)],
         PARSE + SQL + ['SqlToks', 'SqlToksP'],
         'partial: clause (a) placeholder count = parameter count proved for every tree of parser shape outside K13; clause (b) parameters = the values in left-to-right order with their Go kinds proved for every tree of parser shape; clause (d) same-kind trees render the same parameterized text proved for every tree of any shape; clause (c) proved for the fragment with integer and string constants (Spec/SqlFragP.trp): PostgreSQL grammar reads from the parameterized token sequence an expression that, with the returned parameters bound, is true on exactly the rows of the query, hence equivalent to the inline expression, for every tree of any depth and every row (token sequence and parameter list tied to the implementation per case: correspondence SqlToksP); RenderParam total. Outside that fragment (floats, string ranges, K-classes) clause (c) is decided by C04_check on probe rows.',
         'random structured queries, same-kind value substitutions (pairs), quoted/escaped values; non-trivial = both renderers succeeded',
@@ -75,8 +75,8 @@ PROPS = {
         []),
     'C06': P(
         ['C06_accepted_tree_is_a_derivation'],
-        [('corpus', 0), ('enum', 1500), ('rand', 5000), ('lex', 1500), ('nearmiss', 0), ('scale-list', 0), ('scale-chain', 0), ('scale-names', 0)],
-        [('corpus', 0), ('enum', 30000), ('rand', 80000), ('lex', 20000), ('nearmiss', 0), ('scale-list', 0), ('scale-chain', 0), ('scale-names', 0)],
+        [('corpus', 0), ('enum', 1500), ('rand', 5000), ('lex', 1500), ('nearmiss', 0), ('scale-list', 0), ('scale-chain', 0), ('scale-names', 0), ('pairs', 0)],
+        [('corpus', 0), ('enum', 30000), ('rand', 80000), ('lex', 20000), ('nearmiss', 0), ('scale-list', 0), ('scale-chain', 0), ('scale-names', 0), ('pairs', 0)],
         PARSE,
         'full: every accepted token list is laid over by its tree as a derivation (Lay), for all token lists.',
         'all token sequences to length 3/4 over 26 symbols x default field, random structured and damaged queries; non-trivial = accepted',
@@ -108,8 +108,8 @@ PROPS = {
         '', []),
     'C10': P(
         ['C10_parse_all_or_nothing', 'C10_returned_tree_wellformed', 'C10_to_postgres_shape', 'C10_to_param_postgres_shape'],
-        [('corpus', 0), ('enum', 1500), ('rand', 5000), ('lex', 1500), ('nearmiss', 0), ('scale-list', 0), ('scale-giant', 0), ('scale-digits', 0)],
-        [('corpus', 0), ('enum', 30000), ('rand', 80000), ('lex', 20000), ('scale-list', 0), ('scale-giant', 0), ('scale-digits', 0)],
+        [('corpus', 0), ('enum', 1500), ('rand', 5000), ('lex', 1500), ('nearmiss', 0), ('scale-list', 0), ('scale-giant', 0), ('scale-digits', 0), ('pairs', 0)],
+        [('corpus', 0), ('enum', 30000), ('rand', 80000), ('lex', 20000), ('scale-list', 0), ('scale-giant', 0), ('scale-digits', 0), ('pairs', 0)],
         PARSE + ['ToPostgres', 'ToParameterizedPostgres'],
         'full: Parse returns a tree xor an error; every returned tree passes Validate and the independent shape predicate; ToPostgres/ToParameterizedPostgres result shapes.',
         'token sequences, random and damaged queries, random bytes; non-trivial = accepted',
@@ -124,8 +124,8 @@ PROPS = {
         '', []),
     'C12': P(
         ['C12_encode_returns', 'C12_decode_encode_roundtrip', 'C12_atoi_itoa', 'C12_int_leaf_roundtrip', 'C12_string_leaf_roundtrip', 'C12_operator_names_roundtrip', 'C12_operator_names_total', 'C12_decoder_uses_from_string'],
-        [('corpus', 0), ('rand', 6000), ('trees', 2000), ('scale-digits', 0), ('scale-values', 0), ('scale-list', 0), ('scale-names', 0)],
-        [('corpus', 0), ('rand', 80000), ('trees', 30000), ('scale-digits', 0), ('scale-values', 0), ('scale-list', 0), ('scale-names', 0)],
+        [('corpus', 0), ('rand', 6000), ('trees', 2000), ('scale-digits', 0), ('scale-values', 0), ('scale-list', 0), ('scale-names', 0), ('pairs', 0)],
+        [('corpus', 0), ('rand', 80000), ('trees', 30000), ('scale-digits', 0), ('scale-values', 0), ('scale-list', 0), ('scale-names', 0), ('pairs', 0)],
         PARSE + ['Marshal'] + JSONRT,
         'encoder total; operator names round-trip; decode(encode e) = e proved for every tree of the parser shape whose leaves have the kind the decoder infers (Spec/Inferable.ki_b) under three stated facts about encoding/json, strconv and the textual boundary heuristic on the encoder own output; the syntax tree of the encoder output (Spec/Cst.v) is compared with the implementation bytes per case. Decided per accepted query by C12_check: the clauses for trees outside ki_b (identical bytes / print / SQL after the round trip when leaf kinds change: quoted patterns, integer-valued floats = K12) and that Parse results which are not listed exceptions satisfy ki_b.',
         'every accepted generated query is encoded, decoded, re-encoded and re-rendered; non-trivial = accepted and encoded',
@@ -148,8 +148,8 @@ PROPS = {
         ['Go race detector'], level='other', custom=True),
     'C15': P(
         ['C15_missing_function_fails', 'C15_traced_fold_is_render', 'C15_calls_are_the_nodes_in_postorder', 'C15_override_is_local', 'C15_postgres_render_is_the_fold', 'C15_postgres_table_is_the_generated_one', 'C15_fuzzy_boost_unsupported', 'C15_to_postgres_rejects_fuzzy_boost'],
-        [('corpus', 0), ('custom', 5000), ('rand', 3000), ('nearmiss', 0), ('scale-list', 0), ('scale-chain', 0)],
-        [('corpus', 0), ('custom', 80000), ('rand', 30000), ('nearmiss', 0), ('scale-list', 0), ('scale-chain', 0)],
+        [('corpus', 0), ('custom', 5000), ('rand', 3000), ('nearmiss', 0), ('scale-list', 0), ('scale-chain', 0), ('pairs', 0)],
+        [('corpus', 0), ('custom', 80000), ('rand', 30000), ('nearmiss', 0), ('scale-list', 0), ('scale-chain', 0), ('pairs', 0)],
         ['parse'] + CUSTOM + ['ToPostgres', 'ToParameterizedPostgres'],
         'full on the model: for every table of functions Render is the traced fold (calls = nodes in post-order, each once, children before parent, left before right), a missing function anywhere makes it fail, an override is invisible where its operator does not occur; the postgres Render is that fold with the generated table, which has no function for FUZZY/BOOST, so both SQL entry points fail on every tree containing one. The Go Render is tied to render_tr by tracing functions (output and call log compared per case) and by the driver-isolation scenario.',
         'random trees x function tables (all tracing, one operator removed, one overridden, both); non-trivial = tree rendered or correctly refused',
